@@ -221,7 +221,7 @@ class TrainerWorld(World):
         pin, pout = ro.choice([0.2, 0.4, 0.7]), ro.choice([0.2, 0.4, 0.7])
         for t in range(T):
             if not tiny and ro.random() < 0.06:
-                ops.append({"op": "clear"})
+                ops.append({"op": "clear", "keepshape": ro.random() < 0.5})
             if tiny:
                 x = [(cfg["tiny"] >> t) & 1]
                 y = [(cfg["tiny"] >> (4 + t)) & 1]
@@ -410,7 +410,7 @@ class TrainerWorld(World):
             if op["op"] == "clear":
                 ctx.fault("trainer_clear")
                 with ctx.impl("trainer.clear", facts):
-                    trainer.clear()
+                    trainer.clear(**({"keepshape": True} if op.get("keepshape") else {}))     # keyword arguments are passed on to the monitors' reducers
                     for c in conns:
                         c.clear()
                     nrn.clear()
@@ -492,7 +492,7 @@ class TrainerWorld(World):
             if op["op"] == "clear":
                 with ctx.impl("trainer.clear", facts):
                     for layer, conn, nrn, tr in reps:
-                        tr.clear()
+                        tr.clear(**({"keepshape": True} if op.get("keepshape") else {}))
                         layer.connection.clear()
                 ctx.fault("trainer_clear")
                 continue
@@ -734,7 +734,7 @@ class _Run:
             if op["op"] == "clear":
                 ctx.fault("trainer_clear")
                 with ctx.impl("trainer.clear", facts):
-                    trainer.clear()
+                    trainer.clear(**({"keepshape": True} if op.get("keepshape") else {}))
                     conn.clear()
                     self.nrn.clear()
                 self.reset_model()
